@@ -18,7 +18,7 @@ Per-format wiring of the 45 non-block-compressed formats (35 uncompressed, 7 sub
 -/
 import DdsModel.Conv
 namespace Dds.Unc
-open Dds.Conv Dds.F32
+open Dds.Conv Dds.CF32
 
 inductive Comp | R | G | B | A | Y | U | V | E
   deriving DecidableEq, Repr
@@ -171,8 +171,8 @@ def findField (fm : Fmt) (c : Comp) (p : Nat) : Option Field :=
 def defaultVal (d : Default) (prec : Nat) : Nat :=
   match d with
   | .zero => 0
-  | .half => if prec == 0 then 128 else if prec == 1 then 32768 else F32.half
-  | .one => if prec == 0 then 255 else if prec == 1 then 65535 else F32.one
+  | .half => if prec == 0 then 128 else if prec == 1 then 32768 else CF32.half
+  | .one => if prec == 0 then 255 else if prec == 1 then 65535 else CF32.one
 
 /-- UNORM field of `w` bits to the precision -/
 def unormTo (w prec v : Nat) : Nat :=
